@@ -1207,48 +1207,12 @@ class Analysis:
         # vacuous truth before the first iteration this makes them an inductive invariant of L.
         # Inner loops are solved first; their result is added at their heads.
         estab = {}
+        self.gen = gen
+        self.estab = estab
         for h in reversed(cfg.rpo):
             if h.kind != 'loophead' or not cfg.loops[h.id].get('iv') or h.id not in univ:
                 continue
-            body = self.loop_nodes.get(h.id, set())
-            lin = {}
-            lout = {}
-            ch = True
-            rr = 0
-            while ch and rr < 100:
-                ch = False
-                rr += 1
-                for n in cfg.rpo:
-                    if n.id not in body or n.id not in self.instate:
-                        continue
-                    if n is h:
-                        if rr > 1:
-                            continue
-                        cur = frozenset()
-                    else:
-                        cur = None
-                        for (p, i) in n.preds:
-                            o = lout.get((p.id, i))
-                            if o is not None:
-                                cur = o if cur is None else cur & o
-                        if cur is None:
-                            continue
-                        if n.kind == 'loophead':
-                            cur = cur | frozenset(f for f in estab.get(n.id, ()) if h.id in T.node(f)[1])
-                        if lin.get(n.id) == cur:
-                            continue
-                    lin[n.id] = cur
-                    ch = True
-                    for i, sx in enumerate(n.succ):
-                        g = gen.get((n.id, i))
-                        if g is not None:
-                            lout[(n.id, i)] = cur | frozenset(f for f in g if T.op(f) == 'all' and h.id in T.node(f)[1])
-            res = None
-            for (p, i) in h.preds:
-                if self.is_back(p, h) and (p.id, i) in gen:
-                    o = lout.get((p.id, i))
-                    if o is not None:
-                        res = o if res is None else res & o
+            res = self.local_must(h, lambda f, h=h: T.op(f) == 'all' and h.id in T.node(f)[1])
             if res:
                 estab[h.id] = res
         changed = True
@@ -1291,6 +1255,86 @@ class Analysis:
         for k, st in self.edge_out.items():
             st.facts = fout.get(k, frozenset())
         self.fact_rounds = rounds
+
+    def local_must(self, h, keep):
+        """facts (filtered by keep) generated on every path from loop head h to its back edges
+        within one iteration, starting from the empty set at the head"""
+        T = self.T
+        cfg = self.cfg
+        gen = self.gen
+        estab = self.estab
+        body = self.loop_nodes.get(h.id, set())
+        lin = {}
+        lout = {}
+        ch = True
+        rr = 0
+        while ch and rr < 100:
+            ch = False
+            rr += 1
+            for n in cfg.rpo:
+                if n.id not in body or n.id not in self.instate:
+                    continue
+                if n is h:
+                    if rr > 1:
+                        continue
+                    cur = frozenset()
+                else:
+                    cur = None
+                    for (p, i) in n.preds:
+                        o = lout.get((p.id, i))
+                        if o is not None:
+                            cur = o if cur is None else cur & o
+                    if cur is None:
+                        continue
+                    if n.kind == 'loophead':
+                        cur = cur | frozenset(f for f in estab.get(n.id, ()) if keep(f))
+                    if lin.get(n.id) == cur:
+                        continue
+                lin[n.id] = cur
+                ch = True
+                for i, sx in enumerate(n.succ):
+                    g = gen.get((n.id, i))
+                    if g is not None:
+                        lout[(n.id, i)] = cur | frozenset(f for f in g if keep(f))
+        res = None
+        for (p, i) in h.preds:
+            if self.is_back(p, h) and (p.id, i) in gen:
+                o = lout.get((p.id, i))
+                if o is not None:
+                    res = o if res is None else res & o
+        return res
+
+    def iteration_facts(self, hid):
+        """facts every completed iteration of loop hid has established when it reaches the back edge"""
+        h = [n for n in self.cfg.rpo if n.id == hid]
+        if not h:
+            return frozenset()
+        return self.local_must(h[0], lambda f: True) or frozenset()
+
+    def loops_on_accept_path(self):
+        """loop heads that lie on some path to an accepting exit (all loops of the function that are
+        not inside a rejecting handler clone)"""
+        acc = set(n.id for n, _ in self.accept_exits())
+        out = []
+        for hid in self.cfg.loops:
+            if hid not in self.instate:
+                continue
+            # can the head reach an accept exit?
+            seen = set()
+            st = [x for x in self.cfg.rpo if x.id == hid]
+            ok = False
+            while st:
+                x = st.pop()
+                if x.id in seen:
+                    continue
+                seen.add(x.id)
+                if x.id in acc:
+                    ok = True
+                    break
+                st.extend(x.succ)
+            if ok:
+                out.append(hid)
+        return out
 
     def is_back(self, p, head):
         """edge p->head is a back edge iff p is reachable from head without leaving through head's exit;
